@@ -51,7 +51,17 @@ SHAPES = {
         ("me", "User", "reviews { body author { id username } product { upc reviews { body author { id username } } } }"),
         ("topProducts", "Product", "upc reviews { body author { id username } }")]},
     9: {"name": "cat", "arg": None, "parts": [("cat", "Cat", "name")]},
+    # ---- second configuration (harness/internal/planfed): equally short alternative key chains, an abstract list with an
+    # entity selected unscoped and inside a type fragment, two @requires dependencies from different subgraphs
+    10: {"name": "ptitle", "arg": None, "env": "plan", "parts": [("me", "User", "id name title uuid")]},
+    11: {"name": "pitems", "arg": None, "env": "plan", "parts": [
+        ("items", "Item", "owner { name } ... on Book { owner { name } }")]},
+    12: {"name": "pitems2", "arg": None, "env": "plan", "parts": [
+        ("items", "Item", "id ... on Film { minutes owner { name title } } owner { name title }")]},
+    13: {"name": "preq", "arg": None, "env": "plan", "parts": [("a", "A", "x"), ("b", "B", "y")]},
 }
+SUBGRAPHS = {"": ["accounts", "products", "reviews"],
+             "plan": ["catalog", "users", "bridge-one", "bridge-two", "titles", "wsvc", "zsvc", "target"]}
 HAS_DIR = {1, 2, 4, 5}
 NAMES = {0: ("n", "s", "i"), 1: ("first", "hide", "show"), 2: ("b", "c", "a")}  # (argument, skip, include); 2 permutes the canonical names
 INVALID = 9
@@ -130,7 +140,10 @@ def concrete(a):
         v = json.dumps(collections.OrderedDict(reversed(list(variables.items())))) if variables else ""
     else:
         v = json.dumps(variables) if variables else ""
-    return {"q": " ".join(docs), "v": v, "op": opname, "a": a}
+    out = {"q": " ".join(docs), "v": v, "op": opname, "a": a}
+    if sh.get("env"):
+        out["env"] = sh["env"]
+    return out
 
 
 def akey(a):
@@ -327,7 +340,7 @@ def validate_hist(ctx, rows, details, tag, cfg="Trace_PlanCache.cfg"):
         ctx.violation(key, "%s; history %s, options %s (%s run), position %s, request %s" % (
             msg, t[0]["h"], oname(o), t[0]["mode"], ev.get("pos"), json.dumps(concrete(ev["a"])["q"]) if ev.get("a") else "?"),
             {"history": [concrete(x["a"]) for x in t[1:] if x["g"] in (0, 1) or t[0]["mode"] in ("gated", "traced")], "oset": o, "mode": t[0]["mode"],
-             "failing_position": ev.get("pos"), "event": ev, "detail": d, "invariant": what})
+             "slow": d.get("slow"), "failing_position": ev.get("pos"), "event": ev, "detail": d, "invariant": what})
         rest = len(items) - 1
         if rest > 0:
             ctx.notes.append("%d more recorded traces with the signature %s (same invariant, shape, minify on/off, mode)" % (rest, list(g)))
@@ -479,7 +492,15 @@ def nontrivial(b):
 def run_replay(ctx, binary):
     with open(ctx.replay_in) as f:
         case = json.load(f)["case"]
-    if case.get("mode") in ("gated", "traced"):
+    if case.get("mode") == "slow":
+        ip, ep, rp = ctx.path("replay.ndjson"), ctx.path("replay-events.ndjson"), ctx.path("replay-res.ndjson")
+        lib.write_ndjson(ip, [{"id": "replay", "o": case["oset"], "slow": case["slow"], "r": case["history"][0]}])
+        ctx.run_bin(binary, ["-mode", "slow", "-in", ip, "-out", ep, "-res", rp], timeout=600)
+        rows = lib.read_ndjson(ep)
+        acc, _ = validate_hist(ctx, rows, lib.read_ndjson(rp), "replay", cfg="Trace_PlanCache_gated.cfg")
+        ctx.coverage.update({"traces_validated_against_impl": acc, "evaluations": len(rows), "distinct_nontrivial": 1,
+                             "rule": "replay of one slow-subgraph run", "exhaustive": False})
+    elif case.get("mode") in ("gated", "traced"):
         pair = {"id": "replay", "o": case["oset"], "traced": case["mode"] == "traced", "a": case["history"][0], "b": case["history"][1]}
         ip, ep, rp = ctx.path("replay.ndjson"), ctx.path("replay-events.ndjson"), ctx.path("replay-res.ndjson")
         lib.write_ndjson(ip, [pair])
@@ -578,6 +599,29 @@ def run(ctx):
         ctx.notes.append("%d gated pairs could not be realised (%s)" % (len(unreal), unreal[0]["unrealised"]))
     acc_g, _ = validate_hist(ctx, grows, [d for d in gdet if not d.get("unrealised")], "gated", cfg="Trace_PlanCache_gated.cfg")
     ctx.log("forced interleavings on a shared plan: %d pairs x option sets x {plain, traced}, %d accepted by TLC" % (len(gated_in), acc_g))
+    # ---- one subgraph answers later than everything else that can proceed (each subgraph in turn)
+    slow_in = []
+    for sid in SHAPES:
+        for d in (range(4) if (sid in HAS_DIR and not quick) else [0]):
+            a = {"s": sid, "nm": 0, "src": "var", "val": 0, "dir": d, "ds": "var", "op": 1, "fr": 0, "mo": 0}
+            r = concrete(a)
+            # option sets with multi-fetch AND DAG scheduling (the merged tree is re-scheduled from declared dependencies)
+            osets = sorted({6, 15} | ({rng.choice(all_o)} if quick else set(all_o)))
+            for o in osets:
+                for sub in SUBGRAPHS[r.get("env", "")]:
+                    slow_in.append({"id": "s%d-%d-%d-%s" % (sid, d, o, sub), "o": o, "slow": sub, "r": r})
+    sp, sep, srp = ctx.path("slow.ndjson"), ctx.path("slow-events.ndjson"), ctx.path("slow-results.ndjson")
+    lib.write_ndjson(sp, slow_in)
+    ctx.run_bin(binary, ["-mode", "slow", "-in", sp, "-out", sep, "-res", srp], timeout=3000)
+    srows = lib.read_ndjson(sep)
+    sdet = lib.read_ndjson(srp)
+    sunreal = [d for d in sdet if d.get("unrealised")]
+    if sunreal:
+        ctx.notes.append("%d slow-subgraph runs could not be realised (%s)" % (len(sunreal), sunreal[0]["unrealised"]))
+    nheld = sum(1 for r in srows if r["ev"] == "req" and r["nx"] > 0)
+    acc_s, _ = validate_hist(ctx, srows, [d for d in sdet if not d.get("unrealised")], "slow", cfg="Trace_PlanCache_gated.cfg")
+    ctx.log("slow subgraph: %d runs (shape x option set x subgraph; %d with at least one parked exchange), %d accepted by TLC" % (
+        len(slow_in), nheld, acc_s))
     # ---- determinism: every distinct request x every option set, N fresh plannings, 3 processes
     reqs = {}
     for h in hist_in:
@@ -623,8 +667,8 @@ def run(ctx):
     if raw_ne:
         ctx.notes.append("%d responses equal the reference only after key sorting (member order differs)" % raw_ne)
     ctx.coverage.update({
-        "traces_validated_against_impl": acc_h + acc_g,
-        "evaluations": nreq + len(det_rows) + 2 * len(gated_in),
+        "traces_validated_against_impl": acc_h + acc_g + acc_s,
+        "evaluations": nreq + len(det_rows) + 2 * len(gated_in) + len(slow_in),
         "distinct_nontrivial": len(distinct),
         "rule": "one case = (TLC-generated history of 3-5 requests, option set); executed sequentially and from two goroutines on one real "
                 "engine, every response compared with a fresh default engine; distinct by (concrete requests, option set); non-trivial = "
@@ -632,6 +676,7 @@ def run(ctx):
         "histories": {"length3_exhaustive": n3, "length4_sampled": n4, "length5_sampled": n5, "replayed": len(hist_in)},
         "requests_executed_in_histories": nreq,
         "forced_interleavings": {"pairs": len(pairs), "runs": len(gated_in), "accepted_by_tlc": acc_g, "unrealised": len(unreal)},
+        "slow_subgraph_runs": {"runs": len(slow_in), "with_parked_exchange": nheld, "accepted_by_tlc": acc_s, "unrealised": len(sunreal)},
         "requests_served_from_plan_cache": nhit,
         "model_hit_mismatches": mism,
         "determinism": {"requests": len(det_in), "request_x_option_set": sum(len(r["osets"]) for r in det_in), "fresh_engines_per_process": nfresh, "processes": 3,
@@ -643,7 +688,7 @@ def run(ctx):
         "exhaustive": False,
     })
     ctx.assumptions += [
-        "operations are instances of the 9-shape catalog over the federationtesting supergraph (queries only; no mutations, subscriptions, @defer)",
+        "operations are instances of a 13-shape catalog: 9 over the federationtesting supergraph, 4 over the hand-written planfed supergraph (queries only; no mutations, subscriptions, @defer)",
         "subgraphs are the in-process example services with static data; responses are compared after key sorting",
         "the printed plan is a reflective dump of plan.Plan without source positions (resolve.Position differs per request text and is never rendered) and without data source instances",
         "\"the same normalized operation\" is decided by re-running the engine's own normalization pipeline in the driver",
